@@ -102,13 +102,21 @@ def snapshot(parser):
     return out
 
 
-def feed_recorded(history):
+def feed_recorded(history, transfer=None):
     """FeedRecorder: drives the real parser, returns the log [(k, event, trace|None)], stray-END state diffs and a
-    possible exception."""
+    possible exception.  transfer = (index, how): before that record the parser is replaced by a checkpoint of itself
+    (copy.deepcopy, or a pickle round trip - a checkpoint file, a hand-over to a worker process), windows open."""
     parser = ev.new_parser()
     log = []
     state_changes = []
     for k, e in enumerate(history):
+        if transfer is not None and k == transfer[0]:
+            import copy
+            import pickle
+            try:
+                parser = copy.deepcopy(parser) if transfer[1] == 'deepcopy' else pickle.loads(pickle.dumps(parser))
+            except Exception as x:
+                return log, state_changes, (k, x), parser
         before = snapshot(parser) if e.func_qualifier == 2 else None
         try:
             t = parser.feed(e)
@@ -122,11 +130,14 @@ def feed_recorded(history):
     return log, state_changes, None, parser
 
 
-def check_history(res, history, label=''):
+def check_history(res, history, label='', transfer=None):
     """The offline checker: everything below is derived from `history` and the recorded log only."""
     codes = ev.bundled_codes()
     handlers = H.inventory()['handlers']
-    log, state_changes, exc, parser = feed_recorded(history)
+    log, state_changes, exc, parser = feed_recorded(history, transfer)
+    if transfer is not None:
+        label = f'{label} [parser replaced by a {transfer[1]} checkpoint of itself before record {transfer[0]}]'
+        res.count('histories_with_a_checkpoint_transfer_by_' + transfer[1])
     sig = tuple((e.tid, e.debugid) for e in history)
     res.case(sig, nontrivial=any(e.func_qualifier in (1, 2) for e in history))
     res.count('events_fed', len(history))
@@ -337,6 +348,9 @@ def random_histories(res, ctx, rng):
             res.count('random_histories_with_stamps_running_backwards')
         check_history(res, history, 'random')
         res.count('random_histories')
+        if h % 3 != 2 and h % 2 == 0 and len(history) > 2:
+            # (timestamps are unique here: the windows of a checkpoint hold copies of the records, matched by timestamp)
+            check_history(res, history, 'random', transfer=(rng.randrange(1, len(history)), ('deepcopy', 'pickle')[(h // 2) % 2]))
 
 
 def long_windows(res, ctx, rng):
@@ -581,7 +595,8 @@ def run(ctx):
                         'words are in-domain so that the real decoders are total on the windows they receive']
     for cls in ('class_unmatched_end', 'class_reopened_start', 'class_nested', 'class_crossing',
                 'class_same_code_two_threads', 'class_both_domains_open', 'class_qualifier_all', 'windows_checked',
-                'singles_checked', 'long_window_histories', 'huge_windows', 'foreign_naming_pair_histories', 'histories_after_a_table_change'):
+                'singles_checked', 'long_window_histories', 'huge_windows', 'foreign_naming_pair_histories', 'histories_after_a_table_change',
+                'histories_with_a_checkpoint_transfer_by_pickle', 'histories_with_a_checkpoint_transfer_by_deepcopy'):
         res.require(cls)
     if monitors.HAVE_ICONTRACT:
         res.require('invariant_evaluations')
